@@ -260,7 +260,8 @@ def cex_ops(c):
     t, k = c.get("table", ""), c.get("kind", "*")
     if t == "Lift":
         kinds = [k] if k != "*" else ["bank", "staking", "distribution", "ibc", "gov", "stargate", "any", "wasm"]
-        return "c17", ["build " + " ".join(ALL_REC[:7])] + [x for kk in kinds for x in ("send-sub lifted %s 01" % kk, "records")]
+        return "c17", ["build " + " ".join(ALL_REC[:7])] + [x for kk in kinds for x in ("send-sub lifted %s 01" % kk, "records", "send-sub-from reply lifted %s 02" % kk, "records",
+                                                                                  "send-sub-from migrate lifted %s 03" % kk, "records")]
     if t == "Router.execTable":
         kinds = [k] if k != "*" else ["bank", "custom", "staking", "distribution", "ibc", "gov", "stargate", "any", "wasm"]
         return "c17", ["build " + " ".join(ALL_REC[:7])] + [x for kk in kinds for x in ("send-top %s 01" % kk, "records", "send-sub native %s 02" % kk, "records")]
